@@ -219,16 +219,36 @@ func C04(ctx *core.Ctx) {
 					continue
 				}
 				e := pr.EnvAt(c.Instr.(ssa.Instruction))
-				args := c.Args() // [recv,] buff, start, end
+				args := c.Args() // [recv,] buff, start, end   or   [recv,] block
 				off := 0
 				if dec.Signature.Recv() != nil {
 					off = 1
 				}
-				if len(args) < off+3 {
+				var start, end lin.Term
+				var base ssa.Value
+				switch {
+				case len(args) >= off+3:
+					start, end, base = e.Term(args[off+1]), e.Term(args[off+2]), ssax.Strip(args[off])
+				case len(args) == off+1:
+					// the block itself: a slice expression x[lo:hi] or a whole buffer
+					if sl, isSl := ssax.Strip(args[off]).(*ssa.Slice); isSl {
+						start = lin.Const(0)
+						if sl.Low != nil {
+							start = e.Term(sl.Low)
+						}
+						if sl.High != nil {
+							end = e.Term(sl.High)
+						} else {
+							end = e.LenOf(sl.X)
+						}
+						base = ssax.Strip(sl.X)
+					} else {
+						start, end, base = lin.Const(0), e.LenOf(args[off]), ssax.Strip(args[off])
+					}
+				default:
 					ctx.Undecided("C04.S4", ssax.Name(fn)+" › call of the pair reader", r.IPos(c.Instr), "unexpected argument list")
 					continue
 				}
-				start, end := e.Term(args[off+1]), e.Term(args[off+2])
 				// size = the Uint32 read in this function
 				var size lin.Term
 				found := false
@@ -241,7 +261,7 @@ func C04(ctx *core.Ctx) {
 				okT := found && termEq(end.Sub(start), size)
 				ctx.Check(okT, "C04.S4", ssax.Name(fn)+" › pair reader is given [start, start+size)", r.IPos(c.Instr), "end − start = the size field just read", "the header block handed to the pair reader is not exactly the size that was read")
 				// frame reader: start = 4 (size prefix within frame[1:]); stream: start = 0
-				if _, isFrame := ssax.Strip(args[off]).(*ssa.Parameter); isFrame {
+				if _, isFrame := base.(*ssa.Parameter); isFrame {
 					ctx.Check(termEq(start, lin.Const(4)), "C04.S4", ssax.Name(fn)+" › pairs start right after the 4-byte size prefix", r.IPos(c.Instr), "start = 4", "pairs are decoded from the wrong offset of the frame")
 				} else {
 					ctx.Check(termEq(start, lin.Const(0)), "C04.S4", ssax.Name(fn)+" › pairs start at the beginning of the block read", r.IPos(c.Instr), "start = 0", "pairs are decoded from the wrong offset of the block")
@@ -498,6 +518,7 @@ func c04Encoder(ctx *core.Ctx, r *RT, pr *bounds.Prover, enc, calc *ssa.Function
 		t, ok := x.f.term(e, v)
 		if !ok {
 			lifted = false
+			return lin.Var("?unliftable")
 		}
 		return t
 	}
@@ -576,6 +597,7 @@ func c04Encoder(ctx *core.Ctx, r *RT, pr *bounds.Prover, enc, calc *ssa.Function
 func c04Decoder(ctx *core.Ctx, r *RT, pr *bounds.Prover, dec *ssa.Function) {
 	dn := ssax.Name(dec)
 	var buff, endP *ssa.Parameter
+	endIsLen := false
 	for _, p := range dec.Params {
 		if _, ok := p.Type().Underlying().(*types.Slice); ok {
 			buff = p
@@ -588,13 +610,24 @@ func c04Decoder(ctx *core.Ctx, r *RT, pr *bounds.Prover, dec *ssa.Function) {
 			return
 		}
 		ph, isPhi := bo.X.(*ssa.Phi)
+		if !isPhi || !inCycle(ph) {
+			return
+		}
 		q, isParam := bo.Y.(*ssa.Parameter)
-		if !isPhi || !isParam || !inCycle(ph) {
+		lenOfBuff := false
+		if lc, isC := CallValue(bo.Y); isC && lc.FullName() == "builtin.len" && ssax.Strip(lc.Common.Args[0]) == ssa.Value(buff) {
+			lenOfBuff = true // the block itself is handed over: its end is len(block)
+		}
+		if !isParam && !lenOfBuff {
 			return
 		}
 		for _, u := range *bo.Referrers() {
 			if _, isIf := u.(*ssa.If); isIf {
-				endP = q
+				if isParam {
+					endP = q
+				} else {
+					endIsLen = true
+				}
 			}
 		}
 	})
@@ -641,6 +674,7 @@ func c04Decoder(ctx *core.Ctx, r *RT, pr *bounds.Prover, dec *ssa.Function) {
 		t, ok := x.f.term(env, v)
 		if !ok {
 			lifted = false
+			return lin.Var("?unliftable")
 		}
 		return t
 	}
@@ -651,7 +685,17 @@ func c04Decoder(ctx *core.Ctx, r *RT, pr *bounds.Prover, dec *ssa.Function) {
 	ctx.Check(termEq(T(s1, s1.sl.High).Sub(T(s1, s1.sl.Low)), T(p1, p1.val)) && termEq(T(s2, s2.sl.High).Sub(T(s2, s2.sl.Low)), T(p2, p2.val)) && lifted, "C04.S4", dn+" › payload has exactly the length just read", r.IPos(s1.f.In), "hi − lo = decoded length", "a payload slice does not have the length announced by its prefix")
 	ctx.Check(termEq(T(p2, p2.sl.Low), T(s1, s1.sl.High)) && lifted, "C04.S4", dn+" › value prefix starts where the name ended", r.IPos(p2.f.In), "offset continuity", "gap or overlap between name bytes and value prefix")
 	okPhi := false
-	if phi, isPhi := p1.f.up(p1.sl.Low).(*ssa.Phi); isPhi {
+	// the loop counter: the φ of the decoder whose value is the offset of the first prefix
+	var phi *ssa.Phi
+	first := T(p1, p1.sl.Low)
+	ssax.Instrs(dec, func(in ssa.Instruction) {
+		if ph, isPhi := in.(*ssa.Phi); isPhi && phi == nil && inCycle(ph) && lifted {
+			if b, isB := ph.Type().Underlying().(*types.Basic); isB && b.Info()&types.IsInteger != 0 && termEq(e.Term(ph), first) {
+				phi = ph
+			}
+		}
+	})
+	if phi != nil {
 		for i, ed := range phi.Edges {
 			if phi.Block().Dominates(phi.Block().Preds[i]) {
 				be := pr.EnvAt(phi.Block().Preds[i].Instrs[len(phi.Block().Preds[i].Instrs)-1])
@@ -672,7 +716,7 @@ func c04Decoder(ctx *core.Ctx, r *RT, pr *bounds.Prover, dec *ssa.Function) {
 	ctx.Check(isPayload(mu.Key, s1) && isPayload(mu.Value, s2), "C04.S4", dn+" › map entry is (name payload, value payload)", r.IPos(last), "headers[name] = value", "the decoded pair is stored with name and value swapped or from other data")
 
 	// ---- S6 exactness of reject guards -------------------------------------------------------
-	if endP == nil {
+	if endP == nil && !endIsLen {
 		ctx.Unresolved("C04.S6", dn+" end bound", "loop bound parameter not found")
 		return
 	}
@@ -680,12 +724,18 @@ func c04Decoder(ctx *core.Ctx, r *RT, pr *bounds.Prover, dec *ssa.Function) {
 	// helper are examined once, in the helper, against the parameter that
 	// receives the decoder's end bound
 	type scope struct {
-		fn   *ssa.Function
-		end  ssa.Value
-		evs  []rd
-		name string
+		fn     *ssa.Function
+		end    ssa.Value // the end bound: this integer parameter …
+		endLen ssa.Value // … or the length of this slice parameter
+		evs    []rd
+		name   string
 	}
-	scopes := []scope{{fn: dec, end: endP, name: dn}}
+	scopes := []scope{{fn: dec, name: dn}}
+	if endIsLen {
+		scopes[0].endLen = buff
+	} else {
+		scopes[0].end = endP
+	}
 	seenHelper := map[*ssa.Function]bool{}
 	for _, x := range evs {
 		if x.f.Call == nil {
@@ -695,17 +745,23 @@ func c04Decoder(ctx *core.Ctx, r *RT, pr *bounds.Prover, dec *ssa.Function) {
 		g := x.f.Call.Call.StaticCallee()
 		if !seenHelper[g] {
 			seenHelper[g] = true
-			var end ssa.Value
+			var end, endLen ssa.Value
 			for i, a := range x.f.Call.Call.Args {
-				if ssax.Strip(a) == ssa.Value(endP) && i < len(g.Params) {
+				if i >= len(g.Params) {
+					continue
+				}
+				if endP != nil && ssax.Strip(a) == ssa.Value(endP) {
 					end = g.Params[i]
 				}
+				if endIsLen && ssax.Strip(a) == ssa.Value(buff) {
+					endLen = g.Params[i]
+				}
 			}
-			if end == nil {
+			if end == nil && endLen == nil {
 				ctx.Unresolved("C04.S6", ssax.Name(g)+" end bound", "the helper does not receive the decoder's end bound")
 				return
 			}
-			sc := scope{fn: g, end: end, name: ssax.Name(g)}
+			sc := scope{fn: g, end: end, endLen: endLen, name: ssax.Name(g)}
 			for _, y := range evs {
 				if y.f.Call == x.f.Call {
 					sc.evs = append(sc.evs, y)
@@ -725,7 +781,7 @@ func c04Decoder(ctx *core.Ctx, r *RT, pr *bounds.Prover, dec *ssa.Function) {
 			for i, s := range b.Succs {
 				isErr := false
 				for ret := range ReturnedValues(sc.fn) {
-					if ret.Block() == s && !nilErrorReturn(ret) {
+					if ret.Block() == s && rejectReturn(ret) {
 						isErr = true
 					}
 				}
@@ -753,7 +809,12 @@ func c04Decoder(ctx *core.Ctx, r *RT, pr *bounds.Prover, dec *ssa.Function) {
 				env := pr.EnvAt(iff)
 				env.AddCond(iff.Cond, i == 0)
 				lo, hi := env.Term(prot.Low), env.Term(prot.High)
-				end := env.Term(sc.end)
+				var end lin.Term
+				if sc.end != nil {
+					end = env.Term(sc.end)
+				} else {
+					end = env.LenOf(sc.endLen)
+				}
 				// guard ∧ (0 ≤ lo ≤ hi ≤ end) must be infeasible
 				facts := append([]lin.Ineq{}, env.Facts...)
 				facts = append(facts, lin.GE(lo, lin.Const(0), ""), lin.LE(lo, hi, ""), lin.LE(hi, end, ""))
@@ -808,4 +869,22 @@ func rangeStoresAll(fn *ssa.Function, src ssa.Value, dst ssa.Value) (bool, strin
 		})
 	}
 	return ok, ""
+}
+
+// rejectReturn: the return reports failure — a non-nil error, or (for a helper
+// with an ok flag as last result) the constant false.
+func rejectReturn(ret *ssa.Return) bool {
+	res := ret.Parent().Signature.Results()
+	if res.Len() == 0 {
+		return false
+	}
+	last := res.At(res.Len() - 1).Type()
+	if isErrorType(last) {
+		return !nilErrorReturn(ret)
+	}
+	if b, ok := last.Underlying().(*types.Basic); ok && b.Kind() == types.Bool && res.Len() > 1 {
+		c, isC := ssax.Strip(ResolveLocal(ret.Results[len(ret.Results)-1])).(*ssa.Const)
+		return isC && c.Value != nil && c.Value.String() == "false"
+	}
+	return false
 }
